@@ -547,6 +547,43 @@ func ruleLimit(r *Run) {
 			bad = true
 			o.Fail(r.pos(incs[0].Pos()), "the entry counter is not incremented by one (%s)", describe(incs[0].Val, 0))
 		}
+		// once counted, the entry is emitted: from the increment every path leads to `return true`
+		// without starting another iteration (the counter counts emitted entries, not records read)
+		{
+			start := incs[0].Block()
+			seen := map[*ssa.BasicBlock]bool{start: true}
+			work := append([]*ssa.BasicBlock{}, start.Succs...)
+			if ret, ok := start.Instrs[len(start.Instrs)-1].(*ssa.Return); ok {
+				for _, lv := range phiLeaves(ret.Results[0]) {
+					if !isConstBool(lv, true) {
+						bad = true
+						o.Fail(r.pos(ret.Pos()), "the counter is incremented on a path that emits nothing")
+					}
+				}
+			}
+			for len(work) > 0 {
+				b := work[len(work)-1]
+				work = work[:len(work)-1]
+				if b == start || (b.Dominates(start) && b != start) {
+					bad = true
+					o.Fail(r.pos(incs[0].Pos()), "after the counter is incremented the loop can go on to another record: records that are read but not emitted (filtered out) are counted against the limit")
+					break
+				}
+				if seen[b] {
+					continue
+				}
+				seen[b] = true
+				if ret, ok := b.Instrs[len(b.Instrs)-1].(*ssa.Return); ok {
+					for _, lv := range phiLeaves(ret.Results[0]) {
+						if !isConstBool(lv, true) {
+							bad = true
+							o.Fail(r.pos(ret.Pos()), "the counter is incremented on a path that emits nothing")
+						}
+					}
+				}
+				work = append(work, b.Succs...)
+			}
+		}
 		for _, ret := range returnsOf(fn) {
 			for _, lv := range phiLeaves(ret.Results[0]) {
 				if isConstBool(lv, true) && !instrDominates(incs[0], ret) {
